@@ -112,6 +112,7 @@ type Frame struct {
 	reads   []tokenRead
 	forceClaim bool // the next nil obligation is claimed (safederef)
 	callFresh  map[string]bool // locations the callee being abstracted writes only in objects it allocates
+	callSelf   *ssa.Function   // the callee whose contract is being applied (what `selfcall` in its clauses denotes)
 }
 
 func (vc *VC) note(format string, a ...any) {
@@ -611,6 +612,14 @@ func (f *Frame) val(v ssa.Value) Val {
 			if !ok {
 				id = len(vc.grefs) + 1
 				vc.grefs[key] = id
+				// a package-level struct is an object of its own (it lies in no array and existed
+				// before every allocation): own(g) = g, and the element reference with g's
+				// coordinates belongs to an array, so it is not g
+				g := num(int64(-1000 - id))
+				vc.sc.decl("own", "(declare-fun own (Int) Int)")
+				vc.sc.assume(eq(app("own", g), g))
+				vc.elemRef(app("elem_arr", g), app("elem_idx", g))
+				vc.sc.assume(not(eq(g, app("elem", app("elem_arr", g), app("elem_idx", g)))))
 			}
 			return Val{t: num(int64(-1000 - id)), typ: c.Type()}
 		}
